@@ -813,7 +813,7 @@ def c18_cases(thorough):
 
 
 # ======================================================================================== C08 plan annotations
-PLAN_ANNS = [None, '@NoInject(%s);', '@With(%s);', '@NoWith(%s);', '@Ground(%s);']
+PLAN_ANNS = [None, '@NoInject(%s);', '@With(%s);', '@NoWith(%s);', '@Ground(%s);', '@NoInject(%s); @NoWith(%s);', '@NoInject(%s); @With(%s);']
 
 
 def c08_shapes(thorough):
@@ -827,6 +827,10 @@ def c08_shapes(thorough):
   S['aggregating'] = ([R('P', x, named={'s': Aggr('Sum', y)}, body=(Lit('A', x, y),), distinct=True), R('Q', x, body=(Lit('P', x, s=s_), Cmp('>', s_, N(1)))), R('T', x, s_, body=(Lit('Q', x), Lit('P', x, s=s_)))], ['P', 'Q'])
   S['two_rules'] = ([R('P', x, body=(Lit('A', x, y),)), R('P', x, body=(Lit('B', x),)), R('Q', x, Bin('+', x, N(1)), body=(Lit('P', x),)), R('T', x, y, body=(Lit('Q', x, y), Lit('P', y)))], ['P', 'Q'])
   S['recursive_consumer'] = ([R('P', x, y, body=(Lit('A', x, y), Cmp('!=', x, y))), D('C', x, y, body=(Lit('P', x, y),)), D('C', x, z, body=(Lit('C', x, y), Lit('P', y, z))), R('T', x, y, body=(Lit('C', x, y),)), Ann('@Recursive(C, 2);')], ['P'])
+  S['neg_multi_rule'] = ([R('P', x, body=(Lit('A', x, y),)), R('P', y, body=(Lit('A', x, y), Cmp('<', x, y))), R('Q', x, y, body=(Lit('A', y, x),)),
+                          R('T', x, s_, body=(Lit('B', x), Not(Lit('P', x)), Eq(s_, Comb('Count', y, (Lit('Q', x, y), Not(Lit('P', y)))))))], ['P', 'Q'])
+  S['constant_heads'] = ([R('P', N(1), x, body=(Lit('B', x), Cmp('<', x, N(2)))), R('Q', N(2), x, body=(Lit('B', x),)), R('T', x, body=(Lit('P', N(2), x),)),
+                          R('U', x, y, body=(Lit('P', z, x), Lit('Q', z, y))), R('W', x, body=(Lit('Q', N(2), x), Lit('P', N(1), x)))], ['P', 'Q'])
   S['functional'] = ([R('P', x, value=y, body=(Lit('A', x, y),)), R('Q', x, value=Bin('+', Call('P', x), N(1)), body=(Lit('B', x),)), R('T', x, Call('Q', x), body=(Lit('B', x),))], ['P', 'Q'])
   if thorough:
     S['three_chain'] = ([R('P', x, y, body=(Lit('A', x, y),)), R('Q', x, y, body=(Lit('P', y, x),)), R('S', x, body=(Lit('Q', x, y), Lit('B', y))), R('T', x, body=(Lit('S', x), Not(Lit('P', x, x))))], ['P', 'Q', 'S'])
@@ -838,8 +842,8 @@ def c08_cases(thorough):
   dbs = dbs_ab(2)
   for name, (rules, inter) in c08_shapes(thorough).items():
     for assign in itertools.product(range(len(PLAN_ANNS)), repeat=len(inter)):
-      anns = [Ann(PLAN_ANNS[a] % p) for a, p in zip(assign, inter) if PLAN_ANNS[a]]
-      preds = ['T'] + list(inter)
+      anns = [Ann(PLAN_ANNS[a].replace('%s', p)) for a, p in zip(assign, inter) if PLAN_ANNS[a]]
+      preds = ['T'] + list(inter) + [p for p in ('U', 'W') if any(isinstance(r, Rule) and r.pred == p for r in rules)]
       c = Case('PLAN/' + name, Program(anns + rules), preds, dbs=dbs, fact_dbs=[FACT_DBS_AB[2]], info=dict(shape=name, assign=assign, depth=2))
       if name == 'recursive_consumer': c.depths = {'C': 2}
       yield c
